@@ -149,7 +149,7 @@ func (s *Scenario) Materialise(dir string) error {
 	return nil
 }
 
-var cliExprs = []string{"//*", "//text()", "//node()", "//@*", "/*", "//*[1]", "count(//*)", "string(/)", "//comment()", "/", "//*[not(*)]", "//*/@*", "/*/*", "//processing-instruction()", "name(/*)", "//*[last()]", "1 + 1", "//nothing", "'lit'", "//*[text()]"}
+var cliExprs = []string{"//*", "//text()", "//node()", "//@*", "/*", "//*[1]", "count(//*)", "string(/)", "//comment()", "/", "//*[not(*)]", "//*/@*", "/*/*", "//processing-instruction()", "name(/*)", "//*[last()]", "1 + 1", "//nothing", "'lit'", "//*[text()]", "/*/@*", "//*/namespace::*", "//@*[1]", "//processing-instruction()[1]"}
 
 func genContent(t *simkit.Tape, kind string) []byte {
 	switch kind {
@@ -178,6 +178,7 @@ func genContent(t *simkit.Tape, kind string) []byte {
 		cfg.MaxDepth = 2
 	}
 	cfg.EmptyCDATA = false
+	cfg.Entities = false
 	doc := model.GenXML(t, cfg)
 	return model.SerialiseXML(t, cfg, doc).Bytes
 }
@@ -278,7 +279,7 @@ func Gen(t *simkit.Tape, sched bool) *Scenario {
 	}
 	s.Expr = cliExprs[t.Draw(len(cliExprs))]
 	if sched {
-		s.Expr = cliExprs[t.Pick(6, 4, 4, 3, 2, 2, 1, 1, 1, 1, 1, 1, 1, 1, 1, 1, 1, 1, 1, 1)]
+		s.Expr = cliExprs[t.Pick(6, 4, 4, 4, 2, 2, 1, 1, 1, 1, 1, 2, 1, 1, 1, 1, 1, 1, 1, 1, 2, 1, 1, 1)]
 	}
 	switch t.Pick(3, 3, 3) {
 	case 1:
@@ -352,7 +353,7 @@ func RunSim(work, dir string, argv []string, stdin []byte, words []uint32, strat
 	run.Stderr, _ = os.ReadFile(filepath.Join(work, "stderr"))
 	rb, rerr := os.ReadFile(filepath.Join(work, "result.json"))
 	if rerr != nil {
-		run.ExitErr = fmt.Sprintf("no result (%v): %s", err, tailStr(string(out), 1500))
+		run.ExitErr = fmt.Sprintf("no result (%v): %s", err, tailStr(string(out), 12000))
 		return run, nil
 	}
 	if jerr := json.Unmarshal(rb, &run.Res); jerr != nil {
@@ -361,11 +362,16 @@ func RunSim(work, dir string, argv []string, stdin []byte, words []uint32, strat
 	return run, nil
 }
 
-// Only the CLI's own file is yield-instrumented in the CLI build (library code
-// runs atomically within a step there; its interleavings belong to scheduler
-// L, which also runs concurrent parsing). The fine-grained-yield support of
-// scheduler P stays switched off.
-func lightDivFor(words []uint32) int { return 0 }
+// Reference runs (no schedule words) never park inside library code; scheduled
+// runs park at library yields once in lightDiv (task-local decision).
+var lightDiv = 4
+
+func lightDivFor(words []uint32) int {
+	if len(words) == 0 {
+		return 0
+	}
+	return lightDiv
+}
 
 func tailStr(s string, n int) string {
 	if len(s) > n {
